@@ -200,6 +200,9 @@ class Catalogue:
             e = c('E1')
         elif name == 'UserFlaky':
             e = c(msg, extra='x') if desc.get('variant') == 'bad' else c(msg)
+        elif name == 'UnregisteredTarget':
+            # glom's own "no handler for this target type" (as a nested construct raises it)
+            e = c('iterate', int, {}, path=self.G.Path(msg))
         elif name == 'SystemExit':
             e = SystemExit(3)
         elif name in ('KeyboardInterrupt', 'GeneratorExit'):
